@@ -351,7 +351,16 @@ func (g *histGen) genBind(portal, stmt string) pgwire.FMsg {
 	if np == 0 && mode == 2 {
 		mode = 0
 	}
+	if np >= 3 && np < 1000 && r.Chance(1, 15) {
+		mode = 3
+	}
 	switch mode {
+	case 3:
+		// a format list that is neither empty, nor one code, nor one per parameter
+		b.PFmt = make([]int16, r.Range(2, np-1))
+		for i := range b.PFmt {
+			b.PFmt[i] = int16(r.Intn(2))
+		}
 	case 1:
 		b.PFmt = []int16{int16(r.Intn(2))}
 	case 2:
@@ -729,6 +738,27 @@ func (g *histGen) unit() {
 			}})
 		}
 		if g.o.closes {
+			cs = append(cs, choice{1, func() {
+				// a portal outlives the name of its statement: the statement is closed,
+				// another one is prepared (under the same or another name), then the
+				// portal is described / executed
+				k1, k2 := g.newKey(), g.newKey()
+				g.c.Programs[k1] = &Program{Stmts: []*StmtProg{g.genStmt(true)}}
+				g.c.Programs[k2] = &Program{Stmts: []*StmtProg{g.genStmt(true)}}
+				sn, pn := g.name(nil, "s"), g.name(nil, "p")
+				g.add(pgwire.FMsg{K: "P", S1: sn, S2: k1})
+				if g.stop {
+					return
+				}
+				g.add(g.genBind(pn, sn), pgwire.FMsg{K: "C", Sub: 'S', S1: sn}, pgwire.FMsg{K: "P", S1: r.Pick(sn, g.name(nil, "s")), S2: k2})
+				if r.Bool() {
+					g.add(pgwire.FMsg{K: "S"})
+				}
+				if r.Bool() {
+					g.add(pgwire.FMsg{K: "D", Sub: 'P', S1: pn})
+				}
+				g.add(pgwire.FMsg{K: "E", S1: pn}, pgwire.FMsg{K: "S"})
+			}})
 			cs = append(cs, choice{2, func() {
 				if r.Bool() {
 					g.add(pgwire.FMsg{K: "C", Sub: 'S', S1: g.name(nil, "s")})
